@@ -331,6 +331,38 @@ def ops_models(impl, lg, lcf, rng, tier):
         yield 'dense', build(types, links)
 
 
+def ops_edit_cases(impl, L, lg, lcf):
+    """Generate, edit the model, regenerate — over the operator language, with the edits on which a stale cache or a
+    half-done removal shows: an asset taken out of a field that keeps other members, an asset removed that sits in both
+    fields of a self-association, alone in one of them."""
+    from maltoolbox.model import Model
+    shapes = [([0], [1, 2], 'from', 2), ([1, 2], [0], 'from', 2), ([0], [1, 2], 'asset', 2), ([1, 2], [0], 'asset', 2),
+              ([0, 1], [0], 'asset', 0), ([0], [0, 1], 'asset', 0), ([0, 1], [0, 2], 'asset', 0), ([0, 1], [0, 2], 'from', 0)]
+    for types in (['Aa', 'Aa', 'Aa'], ['Aa', 'Bb', 'Cc'], ['Dd', 'Bb', 'Aa']):
+        for cls in ('Pp', 'Qq'):
+            for left, right, kind, victim in shapes:
+                m = Model('edit', lcf)
+                objs = []
+                for i, t in enumerate(types):
+                    objs.append(getattr(lcf.ns, t)(name=f'{t.lower()}{i}'))
+                    m.add_asset(objs[-1])
+                o = getattr(lcf.ns, cls)()
+                lf, rf = ('pa', 'pb') if cls == 'Pp' else ('qa', 'qb')
+                setattr(o, lf, [objs[i] for i in left]); setattr(o, rf, [objs[i] for i in right])
+                m.add_association(o)
+                # a second association through the other class, so that something is left to reach
+                o2 = getattr(lcf.ns, 'Qq' if cls == 'Pp' else 'Pp')()
+                lf2, rf2 = ('qa', 'qb') if cls == 'Pp' else ('pa', 'pb')
+                setattr(o2, lf2, [objs[1]]); setattr(o2, rf2, [objs[(victim + 1) % 3]])
+                m.add_association(o2)
+                def regen(mm, g, o=o, x=objs[victim], kind=kind):
+                    if kind == 'from':
+                        mm.remove_asset_from_association(x, o)
+                    else:
+                        mm.remove_asset(x)
+                yield {'L': L, 'lg': lg, 'm': m, 'stream': 'edited', 'regen': regen}
+
+
 def make_cases(pid, impl, tier, seed):
     rng = random.Random(seed * 15485863 + (1 if pid == 'C01' else 2))
     n = {'quick': 300, 'thorough': 2000}[tier]
@@ -342,6 +374,7 @@ def make_cases(pid, impl, tier, seed):
         for stream, m in ops_models(impl, lg, lcf, rng, tier):
             if pid == 'C01' or stream == 'dense':
                 yield {'L': L, 'lg': lg, 'm': m, 'stream': stream}
+        yield from ops_edit_cases(impl, L, lg, lcf)
     if pid == 'C02':
         # names that collide with automatically renamed ones, in every order of three additions
         import itertools
